@@ -5,9 +5,10 @@
    col = pos - start, text = text[start:end]); independent of splitting and of the cache.
    [variant]: Shipped = sentinel of the pinned commit, Fixed = sentinel after fixes/C12-sentinel.patch.
    [g]: true = guarded accessors (TextLinesCursor), false = BufferCursor.lineat/poscol, Buffer.poscol.
-   The parseinfo-of-rules part of C12 (C12_parseinfo_delimits) belongs to the engine model, not to this file. *)
+   The parseinfo-of-rules part of C12 is C12_parseinfo_delimits at the end of this file (engine model). *)
 From Coq Require Import List NArith.
 From TatsuV Require Import Base.PyStr Lib.LineCache Lib.LineCacheProof.
+From TatsuV Require Engine.Value Engine.Syntax Engine.Input Engine.Engine Engine.Calls Engine.BoundsState Engine.FaithfulBounds.
 Import ListNotations.
 Local Open Scope nat_scope.
 
@@ -162,3 +163,27 @@ Proof.
   cbv zeta. repeat split; try reflexivity.
   intros c H. cbn in H. repeat (destruct H as [<- | H]; [reflexivity|]). destruct H.
 Qed.
+
+(* parse information of rules (engine model, faithful semantics with memo and seeds): a fresh invocation of a rule without
+   action whose body yields an AST returns that AST with ParseInfo(rule, pos, endpos, line, endline) under both reserved
+   keys, where pos is where the rule's body started (after the whitespace skipped at rule entry), endpos is exactly where
+   the invocation ends, line/endline are the line numbers of those two offsets (Lib/LineCache.v's lineat), and
+   pos <= endpos <= len(text) - for every grammar, text, configuration and evaluator state reachable by parsing (the
+   evaluator hypothesis TrB holds of the engine for every fuel: FaithfulBounds.feval_b, used by C03_seed_loop_is_bounded_by_the_text) *)
+Theorem C12_parseinfo_delimits :
+  forall text upper ic ec act lineat (ev : @Engine.ev_t Calls.gstate) rl r k st v fb st2 a,
+  BoundsState.TrB text (FaithfulBounds.StateOK text) ev -> FaithfulBounds.StateOK text st -> fst k <= Input.len text ->
+  Calls.lookup (Calls.memos st) k = None ->
+  ev (Syntax.r_exp rl) (Engine.push (Engine.newf (fst k)))
+     (if Calls.left_recursion ec then Calls.memoize ec rl st k Calls.OGuard else st) = (Engine.Ok v fb, st2) ->
+  (Syntax.r_isname rl && Calls.is_keyword upper ic ec (Engine.fold fb))%bool = false ->
+  act r (Engine.fold fb) = Calls.ANone -> Engine.fold fb = Value.VDict a -> Calls.parseinfo ec = true ->
+  let info := Value.VInfo r (fst k) (Engine.pos fb) (lineat (fst k)) (lineat (Engine.pos fb)) in
+  let node := Value.VDict (Value.ast_put (Value.ast_put a Calls.key_parseinfo info) Calls.key_parseinfo2 info) in
+  Calls.rule_call upper ic ec act lineat ev rl r k st
+    = (Calls.ROk node (Engine.pos fb), Calls.memoize ec rl st2 k (Calls.OOk node (Engine.pos fb)))
+  /\ fst k <= Engine.pos fb <= Input.len text.
+Proof.
+  exact FaithfulBounds.rule_call_parseinfo.
+Qed.
+Print Assumptions C12_parseinfo_delimits.
